@@ -1147,6 +1147,9 @@ def enumerate_paths(body, limit=4000, max_visits=1, start=0):
             known = None
             if d.get("k") in ("copy", "move") and not d["place"]["p"]:
                 known = consts.get(d["place"]["l"])
+            elif d.get("k") in ("copy", "move") and len(d["place"]["p"]) == 1 and d["place"]["p"][0].get("k") == "field":
+                # `match (a.is_empty(), b.is_empty())`: the switch reads a field of the tuple directly
+                known = consts.get((d["place"]["l"], d["place"]["p"][0].get("name")))
             elif d.get("k") == "const" and "int" in d:
                 known = d["int"]
             if known is not None and not isinstance(known, tuple):
